@@ -90,12 +90,12 @@ func (u *Universe) world(named *types.Named) (out []types.Type) {
 // defining package only. ssa.Instruction is closed by the language (unexported
 // methods); the others are recorded as assumptions.
 var closedIfaces = map[string]bool{
-	"golang.org/x/tools/go/ssa.Instruction":                            true,
-	"golang.org/x/tools/go/ssa.Value":                                  true,
-	"golang.org/x/tools/go/ssa.CallInstruction":                        true,
-	"golang.org/x/tools/go/ssa.Node":                                   true,
-	"go/types.Type":                                                    true,
-	"github.com/awslabs/ar-go-tools/analysis/dataflow.GraphNode":       true,
+	"golang.org/x/tools/go/ssa.Instruction":                             true,
+	"golang.org/x/tools/go/ssa.Value":                                   true,
+	"golang.org/x/tools/go/ssa.CallInstruction":                         true,
+	"golang.org/x/tools/go/ssa.Node":                                    true,
+	"go/types.Type":                                                     true,
+	"github.com/awslabs/ar-go-tools/analysis/dataflow.GraphNode":        true,
 	"github.com/awslabs/ar-go-tools/analysis/dataflow.IndexedGraphNode": true,
 }
 
@@ -193,12 +193,12 @@ func heapStable(name string) bool {
 // ---------------------------------------------------------------------------
 
 type sortCtx struct {
-	u        *Universe
+	u         *Universe
 	typeDecls []string // datatype declarations (always emitted first; survive reset)
-	decls    []string
-	declared map[string]bool
-	structs  map[string]string // structKey -> datatype name
-	unsup    []string
+	decls     []string
+	declared  map[string]bool
+	structs   map[string]string // structKey -> datatype name
+	unsup     []string
 }
 
 func (c *sortCtx) declare(name, line string) {
